@@ -344,7 +344,7 @@ PLAN["C19"] = {
                    "given that, memory_list_stream::write emits exactly the blocks of this dump and exception_stream::write only a context set in this dump (Verus); "
                    "the same entry obligation is checked on the real callees' signatures by a Kani harness (thorough) and on live targets natively",
     "verus": [dict(STACK, functions=["memory_list_stream_write", "exception_stream_write"], tags=["C19"]),
-              {"unit": "dump", "functions": ["dump"], "tags": ["C19"], "tiers": Q}],
+              {"unit": "dump", "functions": ["dump"], "tags": ["C19"], "tiers": Q}, TLIST("C19")],
     "twins": {"dump": ["native:c19_reuse::second_dump_of_a_reused_writer_equals_a_fresh_one", "native:c19_reuse::reused_writer_after_failed_requests",
                        "native:c19_reuse::reused_writer_with_unresolvable_principal_address", "native:c19_reuse::reused_writer_with_another_blamed_thread"]},
     "kani": [G_DUMP],
@@ -585,9 +585,9 @@ LEVEL_TEXT = {
     "C09": "unbounded proof, for every start offset, pre-existing destination content, image and operation, that each DirSection operation preserves 'flushed prefix == image' and touches nothing outside [start, start+|image|), relative to the assumed Write/Seek semantics",
     "C10": "unbounded proof that no directory entry reaches the destination before the bytes it can reference (the obligation that failed on the pinned tree and was repaired); complete control-flow proof that generate_dump emits entries only through write_to_file (thorough)",
     "C11": "bounded check of suspend_threads, complete control-flow proof (relative to stubs) for the 11 best-effort steps of generate_dump (thorough); init and JSON well-formedness are not covered",
-    "C12": "bounded: exhaustive native enumeration of 13 872 boundary inputs (quick) and Kani over all 8/12-byte stacks with a symbolic mapping (thorough); not a proof for all stack lengths",
+    "C12": "bounded: exhaustive native enumeration of 13 872 boundary inputs and of 12 960 inputs over the geometry of the pre-filter table (quick) and Kani over all 8/12-byte stacks with a symbolic mapping (thorough); not a proof for all stack lengths",
     "C13": "bounded: exhaustive over all maps of up to 3 lines of a 64-element per-line domain; not a proof for all map lengths",
-    "C14": "bounded: eight hand-built images and 608 688 parses of corrupted variants; agreement with an independent parser on installed files is not decided",
+    "C14": "bounded: eight hand-built images and 608 688 parses of corrupted variants (under a watchdog: a hang is a verdict); memory-vs-file agreement of build id and SONAME for every ELF image loaded into the test process and the vDSO; agreement with an independent parser on installed files is not decided",
     "C15": "bounded: every named/unnamed pattern of 2 threads with symbolic ids and concrete names (Kani); every list of <= 3 threads over 8 name shapes incl. non-BMP names (native)",
     "C16": "unbounded proof for every Buffer/MemoryWriter/MemoryArrayWriter function Verus can read (all inputs, all buffer states); complete Kani proofs of the per-type size facts; alloc_from_array proved for any array length (loop head desugared by the extractor, recorded in the evidence); bounded Kani checks (stated bounds) of alloc_from_iter/write_string_to_location",
     "C17": "bounded: destinations of 3, 8, 11, 17 bytes, every source alignment and every readable interval for the ptrace strategy (Kani); all three strategies on a live child around a mapping end, 6144 reads (native); strategy selection complete (Kani)",
